@@ -677,6 +677,34 @@ theorem fp2_pow_vartime_generated_spec {p : Nat} [Fact p.Prime] {α : Type} {O :
   rw [SqiProofs.Fp2LoopsGen.fp2_pow_vartime_eq]
   exact SqiProofs.GfFp2.fp2_pow_vartime_spec h x hx ws hw
 
+/- FULL STATEMENT (not proved): `SqiGen.Fp2Loops.fp2_batched_inv O junk xs xs.length t1 t2 z inv one zero = fp2_batched_inv O xs` for every
+   batch `xs` (with `t1`, `t2`, `z` of length `xs.length`).  The whole C function IS re-extracted on every run (arrays as lists with
+   `List.set` / `List.getD`, five `loopAcc` loops with the bounds of the C text, the `fp2_copy` / `fp2_inv` glue), but only the step level
+   is proved: -/
+/-- **src/gf/ref/gfx/fp2.c, `fp2_batched_inv`, loop bodies by translation (PARTIAL: step level)**: each of the five loop bodies
+    re-extracted from the C text by tools/translate/fp2loops.py writes entry `i` with exactly the step of the hand model
+    `fp2_batched_inv` / `fp2_batched_inv_core`: zero test + substitution by one, prefix product `t1[i-1]·x[i]`, backward chain
+    `t2[i-1]·x[len-i]`, `t1[i-1]·t2[len-i-1]`, zero put back; for every operation record, every array content and every index. -/
+theorem fp2_batched_inv_generated_steps_partial {α : Type} (O : FpOps α) (junk : Fp2 α) (len : Nat) (x t1 t2 : List (Fp2 α)) (z : List Nat)
+    (inverse one zero : Fp2 α) (i : Nat) :
+    (i < z.length → SqiGen.Fp2Loops.fp2_batched_inv_loop_1 O junk len t1 t2 inverse one zero (z, x) i =
+      (z.set i (fp2_is_zero O (x.getD i junk)), x.set i (fp2_select O (x.getD i junk) one (fp2_is_zero O (x.getD i junk))))) ∧
+    SqiGen.Fp2Loops.fp2_batched_inv_loop_2 O junk len x t2 z inverse one zero t1 i = t1.set i (fp2_mul O (t1.getD (i - 1) junk) (x.getD i junk)) ∧
+    SqiGen.Fp2Loops.fp2_batched_inv_loop_3 O junk len x t1 z inverse one zero t2 i =
+      t2.set i (fp2_mul O (t2.getD (i - 1) junk) (x.getD (len - i) junk)) ∧
+    SqiGen.Fp2Loops.fp2_batched_inv_loop_4 O junk len t1 t2 z inverse one zero x i =
+      x.set i (fp2_mul O (t1.getD (i - 1) junk) (t2.getD (len - i - 1) junk)) ∧
+    SqiGen.Fp2Loops.fp2_batched_inv_loop_5 O junk len t1 t2 z inverse one zero x i =
+      x.set i (fp2_select O (x.getD i junk) zero (z.getD i 0)) :=
+  ⟨SqiProofs.Fp2LoopsGen.batched_loop_1_eq O junk len t1 t2 inverse one zero z x i,
+   SqiProofs.Fp2LoopsGen.batched_loop_2_eq O junk len x t2 z inverse one zero t1 i,
+   SqiProofs.Fp2LoopsGen.batched_loop_3_eq O junk len x t1 z inverse one zero t2 i,
+   SqiProofs.Fp2LoopsGen.batched_loop_4_eq O junk len t1 t2 z inverse one zero x i,
+   SqiProofs.Fp2LoopsGen.batched_loop_5_eq O junk len t1 t2 z inverse one zero x i⟩
+
+/-- the hypothesis `i < z.length` is met by any index inside the arrays (here `i = 1`, `len = 2`) -/
+example : (1 : Nat) < ([0, 0] : List Nat).length := by decide
+
 /-- non-vacuity: the generated function on the lvl1 reference record, `x = 1`, a two-word exponent, garbage in `out`/`acc` -/
 example : SqiGen.Fp2Loops.fp2_pow_vartime (Ref.ops lvl1) ⟨7, 9⟩ ⟨Ref.fp_set_one lvl1, 0⟩ [5, 3] 2 ⟨11, 13⟩ =
     fp2_pow_vartime (Ref.ops lvl1) ⟨Ref.fp_set_one lvl1, 0⟩ [5, 3] :=
